@@ -112,7 +112,29 @@ def rule_S1(ctx, F):
             if a == i and el:
                 W.setdefault(el, (p, where[p].get((a, el), f.loc)))
     wr = F.write_summaries(cut=set())
-    R = set(el for (a, el) in wr[RESET] if a == 1)
+    R_may = set(el for (a, el) in wr[RESET] if a == 1)
+    # must-writes: a write of reset counts only if its block dominates every return of reset
+    reset = F.fn(RESET)
+    rets = reset.returns()
+    R = set()
+    for bi, si, s in reset.stmts():
+        if s["k"] == "assign" and s["place"]["p"]:
+            root, el = path_fields(reset.expr_place(s["place"]))
+            if root[0] == "arg" and root[1] == 1 and all(reset.dominates(bi, r) for r in rets):
+                R.add(fields_only(el))
+    for bi, t in reset.calls():
+        for a in t["args"]:
+            e = reset.expr_operand(a)
+            if isinstance(e, tuple) and e[0] == "ref" and e[2]:
+                root, el = path_fields(e)
+                if root[0] == "arg" and root[1] == 1 and el and all(reset.dominates(bi, r) for r in rets):
+                    callee = callee_name(t["callee"])
+                    if F.fn(callee) is None:
+                        R.add(fields_only(el) + ("*",))
+                    else:
+                        for (ca, cel) in wr.get(callee, ()):
+                            R.add(fields_only(el) + cel)
+    ctx.extra.setdefault("S1_conditional_reset_writes", {})[F.cfg] = sorted(".".join(r) for r in R_may if not covered(tuple(x for x in r if x != "*"), R) and r not in R)
     ctx.floor("functions taking &mut Hasher", nfn, 5)
     ctx.floor("distinct Hasher field paths written outside reset", len(W), 3)
     fields = [f["name"] for f in F.adt_fields(HASHER)]
@@ -122,8 +144,9 @@ def rule_S1(ctx, F):
         bad = [el for el in sub if not covered(el, R)]
         wfn, wloc = W[sub[0]]
         ctx.ob(not bad, "reset-restores:%s" % top, wloc if bad else F.fn(RESET).loc,
-               ("field `%s` of Hasher is written by %s (%s) but Hasher::reset assigns only {%s}"
-                % (".".join(bad[0]), W[bad[0]][0], W[bad[0]][1], ", ".join(sorted(".".join(r) for r in R))))
+               ("field `%s` of Hasher is written by %s (%s) but Hasher::reset assigns, on every path to its return, only {%s}%s"
+                % (".".join(bad[0]), W[bad[0]][0], W[bad[0]][1], ", ".join(sorted(".".join(r) for r in R)),
+                   " (it is written on SOME paths only: an early return skips the reset)" if covered(bad[0], R_may) else ""))
                if bad else "written outside reset via %s; reset writes a covering path" % wfn)
     ctx.extra.setdefault("S1", {})[F.cfg] = dict(written=sorted(".".join(e) for e in W), reset=sorted(".".join(r) for r in R),
                                                  hasher_fields=fields)
